@@ -16,6 +16,16 @@ func mainLoop(L *LState, baseframe *callFrame) {
 
 	L.currentFrame = L.stack.Last()
 	if L.currentFrame.Fn.IsG {
+		if baseframe == nil && L.Parent != nil && L.stack.Sp() == 1 {
+			// the body of this coroutine is a Go function: hand what it
+			// returns (or yields) to the resumer
+			if n := L.currentFrame.Fn.GFunction(L); n < 0 {
+				switchToParentThread(L, L.GetTop(), false, false)
+			} else {
+				switchToParentThread(L, n, false, true)
+			}
+			return
+		}
 		callGFunction(L, false)
 		return
 	}
@@ -41,6 +51,16 @@ func mainLoopWithContext(L *LState, baseframe *callFrame) {
 
 	L.currentFrame = L.stack.Last()
 	if L.currentFrame.Fn.IsG {
+		if baseframe == nil && L.Parent != nil && L.stack.Sp() == 1 {
+			// the body of this coroutine is a Go function: hand what it
+			// returns (or yields) to the resumer
+			if n := L.currentFrame.Fn.GFunction(L); n < 0 {
+				switchToParentThread(L, L.GetTop(), false, false)
+			} else {
+				switchToParentThread(L, n, false, true)
+			}
+			return
+		}
 		callGFunction(L, false)
 		return
 	}
